@@ -1511,6 +1511,43 @@ def io_comprehensions_to_loops(tree):
     return applied
 
 
+def hoist_embedded_reads(tree):
+    """`w.write(<expr containing one h.readline()>)` where the read is not the whole argument  ->
+    `t = h.readline(); w.write(<expr with t>)`: the line grammars read statements, and the argument is evaluated before
+    the write happens either way"""
+    applied = []
+    for q, fn in alpha.functions_of(tree):
+        used = {x.id for x in ast.walk(fn) if isinstance(x, ast.Name)}
+        k = [0]
+        for blk in [b for x in ast.walk(fn) for f_ in ("body", "orelse", "finalbody")
+                    for b in [getattr(x, f_, None)] if isinstance(b, list) and b and isinstance(b[0], ast.stmt)]:
+            i = 0
+            while i < len(blk):
+                st = blk[i]
+                c = st.value if isinstance(st, ast.Expr) else None
+                if isinstance(c, ast.Call) and isinstance(c.func, ast.Attribute) and c.func.attr == "write" and len(c.args) == 1:
+                    reads = [x for x in ast.walk(c.args[0]) if isinstance(x, ast.Call) and isinstance(x.func, ast.Attribute)
+                             and x.func.attr == "readline" and not x.args and not x.keywords]
+                    others = [x for x in ast.walk(c.args[0]) if isinstance(x, ast.Call) and isinstance(x.func, ast.Attribute)
+                              and x.func.attr in ("read", "readlines", "seek", "write", "tell")]
+                    if len(reads) == 1 and not others and reads[0] is not c.args[0]:
+                        while f"_rl{k[0]}" in used:
+                            k[0] += 1
+                        name = f"_rl{k[0]}"
+                        used.add(name)
+                        _Replace(reads[0], ast.Name(id=name, ctx=ast.Load())).visit(c)
+                        asg = ast.Assign(targets=[ast.Name(id=name, ctx=ast.Store())], value=reads[0])
+                        ast.copy_location(asg, st)
+                        ast.fix_missing_locations(asg)
+                        ast.fix_missing_locations(st)
+                        blk[i:i] = [asg]
+                        applied.append(f"hoist-read:{q}")
+                        i += 2
+                        continue
+                i += 1
+    return applied
+
+
 def ifexp_to_if(tree):
     """`x = a if c else b` (statement level, one plain target)  ->  `if c: x = a` / `else: x = b`"""
     applied = []
@@ -1640,7 +1677,7 @@ def normalise_idioms(tree):
     t = _Idioms()
     t.visit(tree)
     ast.fix_missing_locations(tree)
-    return t.applied + ifexp_to_if(tree) + continue_guards_to_ifs(tree) + extend_to_appends(tree) + update_to_stores(tree) + drop_dead_containers(tree) + io_comprehensions_to_loops(tree) + loops_to_comprehensions(tree)
+    return t.applied + hoist_embedded_reads(tree) + ifexp_to_if(tree) + continue_guards_to_ifs(tree) + extend_to_appends(tree) + update_to_stores(tree) + drop_dead_containers(tree) + io_comprehensions_to_loops(tree) + loops_to_comprehensions(tree)
 
 
 def _literal(e):
